@@ -605,28 +605,57 @@ CLAIMED = {
         technique="Lean 4 proof (batch partition, explicit encoding, recon objectives) over translator-generated set-up + correspondence",
         design="DESIGN.md §3 C16, §9"),
     "C17": dict(
-        text="PARTIAL by nature (SVD / power-iteration numerics; recovery depends on smoothness). Lean 4 theorems over C about the "
-             "post-processing the translator extracts from EspiritCalib (Gen/EspiritFormulas.lean: calib shape, block/stride "
-             "arguments, reshape/transpose steps, threshold test, Gram scale, normalize power/axis/root, reference coil, crop "
-             "comparison): normalize_eq, power_step_unit (unit l2 norm across coils, estimate ||Gx|| > 0), phase_ref / "
-             "phase_ref_norm (coil 0 becomes |m0| >= 0 real, every modulus unchanged), espirit_keeps_iff (crop test is strictly >), "
-             "crop_dichotomy (unit-norm with coil 0 = |m0|, or exactly 0), gram_symmetric / gram_psd, power_monotone / "
-             "power_bounded (Cauchy-Schwarz), espirit_scale, calib_shape_steps, calib_index_map / _2d / _3d (entry (row-major "
-             "block index, c kw^d + row-major kernel offset) reads calib[c, block + offset], no other entries, for ALL nc, cw, "
-             "kw, through the generated loop nests via C09 a2b1_mem / a2b2_mem / a2b3_mem), eigenvalues <= 1: bessel_gram_le, "
-             "gram_quadratic_le, eig_le_one_of_orthonormal_kernels, eigenvalue_le_one (abstract: orthonormal kernels v_k, a_k = "
-             "T^dagger v_k, ||T x||^2 = kappa ||x||^2, c kappa <= 1 => ||G x|| <= ||x||, <G x, x> <= ||x||^2, |lambda| <= 1) and "
-             "eig_le_one_espirit (E = C^{coils x kw^d}, a_k(q)[c] = sum_p v_k[c,p] eps_q(p), |eps|^2 <= 1/N, scale = generated "
-             "espiritScale = N/kw^d). Tie: translator + real normalize / PowerMethod._update / _output on exact Pythagorean inputs vs the "
-             "model (1e-12, zeros exactly), calibration matrix captured at the real svd call on labelled k-space compared exactly, "
-             "and the hypotheses of eig_le_one_espirit on the real intermediates of every run (kept VH rows orthonormal, real AHA = "
-             "espiritScale * sum_k a_k a_k^H with the explicit centred-DFT phases, N|eps|^2 <= 1, eigvalsh(AHA) <= 1; all at 1e-10).",
-        note="Trusted: Lean kernel; translator gen_c17; eig <= 1 is a theorem only UNDER the hypotheses (numpy's svd returns "
-             "orthonormal rows; sp.ifft of the centre-padded kernel is the centred orthonormal DFT) which are checked numerically, "
-             "not proved; NOT theorems (search oracle only): the float power iteration's estimate, recovery of the true "
-             "maps (1e-2 in the interior, restricted to settings where the unchanged code achieves it: calib_width 12, kernel_width "
-             "4), SVD / power-iteration convergence; m0 = 0 voxels (0/0) excluded.",
-        technique="Lean 4 proof (per-voxel post-processing algebra) over translator-generated formulas + correspondence + invariant oracle",
+        text="PARTIAL by nature (SVD / power-iteration numerics; recovery depends on smoothness). EVERY arithmetic statement of "
+             "EspiritCalib.__init__ / _output is translator-generated, fail-closed (gen_c17: each statement must be consumed by an "
+             "extractor or be one of 14 listed array-plumbing statements; an added statement, changed allocation, extra method or "
+             "decorator is Unsupported = broken obligation). Gen/EspiritFormulas.lean: calib shape, block/stride arguments, "
+             "reshape/transpose steps, singular-value threshold test, Gram scale, crop comparison; Gen/EspiritSteps.lean (over the "
+             "operation record COps, executed on exact Gaussian rationals by the driver, reasoned about over C): normalize, forward "
+             "(AHA @ x), gramTerm (v_i conj v_j), initMps (ones), the PowerMethod wiring (pmOperator, pmStart, pmNormFunc = some "
+             "normalize, pmMaxIter, defaults), output (the two in-place `mps *= ...` of _output in program order); the iteration is "
+             "the generated PowerMethod step / stopping rule of C14 (Gen/C14Power.lean). Lean 4 theorems about these generated "
+             "definitions - Props/C17: normalize_eq (generated normalize = l2 norm across coils), pm_wiring, espirit_defaults, "
+             "power_step_unit / power_run_succ / power_run_unit (generated step with EspiritCalib's generated operator and norm function: "
+             "unit l2 norm after every update with G x != 0, estimate ||G x|| > 0), phase_ref / phase_ref_norm (generated _output of a "
+             "kept voxel: coil 0 becomes |m0| >= 0 real, every modulus unchanged; proof robust to conj(m0/|m0|) vs conj(m0)/|m0|), "
+             "espirit_keeps_iff (strictly >) and espirit_tie_dropped (eig = crop is dropped), output_dropped (exactly 0), "
+             "crop_dichotomy, espirit_voxel_output (k+1 generated updates then generated _output: exactly zero iff eig <= crop, else "
+             "unit norm with real non-negative first coil), gram_symmetric / gram_psd, power_monotone / power_bounded, espirit_scale, "
+             "calib_shape_steps, calib_index_map / _2d / _3d (for ALL nc, cw, kw through the generated loop nests via C09), bessel_gram_le, "
+             "gram_quadratic_le, eig_le_one_of_orthonormal_kernels, eigenvalue_le_one, eig_le_one_espirit. Props/C17Power (the run, every "
+             "iteration count, reusing Props/C14Power pm_step / pm_unit / pm_nondegenerate / pm_estimate_le_lmax / pm_estimate_mono through "
+             "epw_eq_pw: supplying the l2 norm as norm_func is C14's generic run): espirit_pm_step, espirit_pm_unit (Hermitian T, T x0 != 0: "
+             "no division by zero, unit iterate after every update), espirit_pm_estimate_range (Hermitian PSD T with Rayleigh bound L: every "
+             "estimate from the 2nd on equals ||T x|| at the unit iterate, lies in (0, L] and dominates the Rayleigh quotient), "
+             "espirit_pm_estimate_mono, espirit_pm_budget (exactly max_iter updates), gramLin_herm / gramLin_psd and "
+             "espirit_run_eig_unit_interval (EspiritCalib's own AHA[q]: unit iterates, estimates in (0, 1]), sumSq_eq_norm_sq / "
+             "normalize_eq_norm (list model = EuclideanSpace norm). Props/C17Dft (hypotheses of eig <= 1 reduced to numpy's SVD contract): "
+             "the image-domain kernels are written out as the centred orthonormal inverse DFT of the centre-padded kernel (dftEntry, "
+             "axisPhase with the GENERATED util.resize shifts, dftPhase = product over axes); dftEntry_norm_sq, axisPhase_norm_sq_le, "
+             "dftPhase_norm_sq_le (|eps|^2 <= 1/N proved), card_offsets (kw^d offsets proved), axisPhase_fits, eig_le_one_espirit_dft, "
+             "eigenvalue_le_one_dft, espirit_run_eig_unit_interval_dft: for every image shape, kernel width, voxel, coil count and ANY "
+             "subset of kept singular vectors, ||AHA[q] x|| <= ||x||, all eigenvalues <= 1, unit iterates and estimates in (0, 1], under the "
+             "single hypothesis that the rows of VH are orthonormal. Tie: translator + real normalize / PowerMethod._update (two-voxel arrays) / "
+             "_output on exact Pythagorean inputs incl. first coils of size 2^-50 vs the model (1e-12, zeros exactly), run-wiring (alg.x is "
+             "app.mps, starts at ones, max_iter updates, state after the real run loop = per-voxel recursion, 1e-12), calibration matrix captured "
+             "at the real svd call compared exactly, and the SVD / DFT facts on the real intermediates of every run (kept VH rows orthonormal, "
+             "real AHA = espiritScale * sum_k a_k a_k^H with the explicit centred-DFT phases, N|eps|^2 <= 1, eigvalsh(AHA) <= 1; all at 1e-10). "
+             "Oracle on the real code: per-voxel invariants on random / birdcage / low-rank / weak-first-coil (coil 0 scaled by 1e-9..1e-13, "
+             "1e-4..1e-6 for complex64) / first-coil-sign-change k-space, complex128 (1e-6) and complex64 (3e-4), crop equal to an attained "
+             "eigenvalue (a voxel's estimate, an order statistic min..max of the previous run's map, crop = 1.0), numpy-integer widths, "
+             "_output on prescribed unit states (|m0| down to 1e-14, eig == crop ties), histories (2-3 apps of the same shape alive: all "
+             "constructed, then run in construction / reversed / shuffled order, re-run; each must recover ITS OWN smooth maps at 1e-2), recovery.",
+        note="Trusted: Lean kernel; translator gen_c17 (+ gen_c14 for PowerMethod, gen.py for util.resize); numpy.linalg.svd returns "
+             "orthonormal rows (the ONLY numerical hypothesis of eig <= 1; checked at 1e-10 on every run); that sp.ifft(sp.resize(kernel)) "
+             "computes the explicit DFT sum used as the definition of the image-domain kernel (numpy FFT contract + C05 / C09; compared with the "
+             "real AHA at 1e-10 on every run); the per-voxel reading of the batched numpy expressions (voxOps.divS hand-written; compared on "
+             "two-voxel arrays and on the real run loop). Hypotheses kept in the run theorems: AHA[q] x0 != 0 (data dependent) and m0 != 0 "
+             "(0/0 excluded by the property). NOT theorems (search oracle only): floating point, convergence of the estimate to the largest "
+             "eigenvalue, recovery of the true maps (1e-2 in the interior, restricted to settings where the unchanged code achieves it: "
+             "calib_width 12, kernel_width 4). KNOWN FINDING C17:rerun:nan-at-cropped-voxels (found by the re-run histories, recorded, not "
+             "repaired): a second run() of the same EspiritCalib returns NaN at the voxels the first run cropped, because _output works in "
+             "place on a view of self.mps (0/0 on the second call).",
+        technique="Lean 4 proof (generated per-voxel steps + generated PowerMethod run + Bessel/DFT bound) over translator-generated definitions (fail-closed) + correspondence + invariant/history oracle",
         design="DESIGN.md §3 C17, §9"),
 }
 NOT_YET = "check not built yet in this round (framework exists; see DESIGN.md §8 build order)"
